@@ -43,7 +43,8 @@ Record RY (s0 s : state) (m : memo) : Prop := mkRY {
   ry_d1 : forall d d', In (d, d') m -> kind_of s0 d = Some KDefinition ->
             forall n, In n (drefs s d') -> exists r, In r (drefs s0 d) /\ (n = r \/ In (r, n) m);
   ry_d2 : forall d d', In (d, d') m -> kind_of s0 d = Some KDefinition ->
-            forall r, In r (drefs s0 d) -> In r (drefs s d') \/ exists n, In (r, n) m /\ In n (drefs s d')
+            forall r, In r (drefs s0 d) -> In r (drefs s d') \/ exists n, In (r, n) m /\ In n (drefs s d');
+  ry_dn : forall y, (forall d, In (d, y) m -> kind_of s0 d <> Some KDefinition) -> drefs s y = drefs s0 y
 }.
 
 Lemma ry_start s0 : UF s0 -> RY s0 s0 [].
@@ -53,6 +54,7 @@ Proof.
   - intros x x' [].
   - intros d d' [].
   - intros d d' [].
+  - intros y _. reflexivity.
 Qed.
 
 (* kinds of the objects of a definition *)
@@ -105,6 +107,8 @@ Section RYDef.
       + rewrite (Hdo b) by (destruct (st_rng _ _ _ ST0 a b Hi); lia).
         destruct (ry_d2 _ _ _ Y a b Hi Hk r Hr) as [A|[n [A B]]]; [left; exact A|right; exists n; split; [apply (so_sub _ _ _ _ _ _ SO); exact A|exact B]].
       + rewrite Hdr. left. exact Hr.
+    - intros y Hy. assert (Hyd : y <> d') by (intros ->; apply (Hy d Hin Hkd)).
+      rewrite (Hdo y Hyd). apply (ry_dn _ _ _ Y). intros a Ha. apply Hy. apply (so_sub _ _ _ _ _ _ SO). exact Ha.
   Qed.
 End RYDef.
 
@@ -222,6 +226,7 @@ Section Attach.
     - intros x x' H Hk. rewrite Fr. apply (ry_ir _ _ _ Y x x' H Hk).
     - intros d d' H Hk n. rewrite Fd. apply (ry_d1 _ _ _ Y d d' H Hk n).
     - intros d d' H Hk n. rewrite Fd. apply (ry_d2 _ _ _ Y d d' H Hk n).
+    - intros y Hy. rewrite Fd. apply (ry_dn _ _ _ Y y Hy).
   Qed.
 End Attach.
 
@@ -251,6 +256,7 @@ Proof.
     destruct (ry_d1 _ _ _ Y d d' Hi0 Hkd0 n Hnn) as [r [A [B|B]]]; exists r; (split; [exact A|]); [left; exact B|right; right; exact B].
   - intros d d' H Hkd0 r Hr. pose proof (Hnd d d' H (or_introl Hkd0)) as Hi0. rewrite Hd.
     destruct (ry_d2 _ _ _ Y d d' Hi0 Hkd0 r Hr) as [A|[n [A B]]]; [left; exact A|right; exists n; split; [right; exact A|exact B]].
+  - intros y Hy. rewrite Hd. apply (ry_dn _ _ _ Y). intros a Ha. apply Hy. right. exact Ha.
 Qed.
 
 (* ---- the redirect loop on one copied definition ---- *)
@@ -278,7 +284,7 @@ Proof.
     - rewrite C in Hr. injection Hr as <-. exfalso. apply (Hvals e0 e0' B He). }
   destruct (def_rr_spec s0 s s' m d' U0 X Hd'0 HL E) as [X' [A [B [C [D [Hdr [F G]]]]]]].
   split; [|split; [exact A|split; [exact B|split; [exact C|split; [exact D|split; [exact F|split; [exact G|exact Hdr]]]]]]].
-  constructor; [exact X'| | |].
+  constructor; [exact X'| | | |].
   - intros x x' Hxx Hkx. destruct (in_dec Nat.eq_dec x' (kids s RChildren d')) as [Hin|Hout].
     + rewrite (G x' Hin). destruct (ry_ir _ _ _ Y x x' Hxx Hkx) as [H1|[e0 [e0' [P [Q S]]]]].
       * rewrite H1. destruct (iref s0 x) as [e|] eqn:Er; [|left; reflexivity]. cbn. destruct (mget m e) as [e'|] eqn:Em; [|left; reflexivity].
@@ -302,6 +308,8 @@ Proof.
       * right. exists n. split; [exact Hrn|]. apply dedup_keep_In. apply in_map_iff. exists n.
         destruct (mget m n) as [z|] eqn:Em; [exfalso; apply (Hvals r n Hrn); apply (mget_key m n z Em)|]. split; [reflexivity|exact Hin].
     + apply (ry_d2 _ _ _ Y a b H Hk r Hr).
+  - intros y Hy. assert (Hyd : y <> d') by (intros ->; apply (Hy d Hdd Hkd)).
+    rewrite Hdr. unfold upd. apply Nat.eqb_neq in Hyd. rewrite Hyd. apply (ry_dn _ _ _ Y y Hy).
 Qed.
 
 (* ---- the definitions of one library ---- *)
